@@ -573,7 +573,7 @@ class Parser:
         ast, macros = self._parse('void __dummy(\n%s\n);' % cdecl)[:2]
         if macros:
             raise CDefError("'#define' is not allowed in a type string")
-        args = ast.ext[-1].type.args if ast.ext else None
+        args = getattr(ast.ext[-1].type, 'args', None) if ast.ext else None
         if args is None or len(args.params) != 1:
             raise CDefError("expected a single C type, got %r" % (cdecl,))
         exprnode = args.params[0]
